@@ -32,6 +32,18 @@ class Interrupted(Exception):
     pass
 
 
+# SQLite capacity limits (not semantics): statement too deeply nested for the parser
+# stack / expression depth limit, out of (bounded) memory.  => inconclusive.
+ENGINE_LIMIT_MESSAGES = ('interrupted', 'out of memory', 'parser stack overflow',
+                         'Expression tree is too large', 'too many terms in compound SELECT',
+                         'too many FROM clause terms', 'at most 64 tables in a join')
+
+
+def is_engine_limit(e):
+    m = str(e)
+    return any(x in m for x in ENGINE_LIMIT_MESSAGES)
+
+
 # ---- optional memoisation of the dialect-library parse (filled by the real parser)
 _real_parse_file = parse.ParseFile
 _lib_cache = {}
@@ -138,7 +150,7 @@ def execute(prog, con=None):
         hdr = [d[0] for d in cur.description]
         return hdr, rows
     except sqlite3.OperationalError as e:
-        if 'interrupted' in str(e) or 'out of memory' in str(e):
+        if is_engine_limit(e):
             raise Interrupted()
         raise
     except MemoryError:
@@ -184,7 +196,7 @@ def run_concertina(text, preds, flags=None, con=None, import_root=None, log=None
                 return [d[0] for d in c.description], c.fetchall()
             con.executescript(sql)
         except sqlite3.OperationalError as e:
-            if 'interrupted' in str(e) or 'out of memory' in str(e):
+            if is_engine_limit(e):
                 raise Interrupted()
             raise
         except MemoryError:
